@@ -187,6 +187,7 @@ func TestVerif_C12_Confinement(t *testing.T) {
 	rec := verifx.NewRecorder("C12", "confinement", "a core with namespaces a/, optionally a/b/, and a separately sealed namespace s/; a recording backend mounted twice per namespace (and at a nested path in the root); a broad-policy token and a child token per namespace; actions: backend requests whose storage key is client-controlled (hostile keys: '..', absolute, other mounts' prefixes, NUL, empty, unicode) in every operation, with every namespace's token in every namespace, namespace by context or path prefix; cubbyhole writes and reads by every other token; seal/unseal of s/; oracle: every physical key touched by the goroutine running a backend handler lies under that mount's own storage prefix; reads never return a value written through another mount; a token works only in its own namespace and below; cubbyhole values reach only their writer; a sealed namespace serves nothing and no storage operation falls under its prefix; non-trivial = a hostile key or a cross-namespace / cross-token attempt that reached routing")
 	defer rec.Flush()
 	rapid.Check(t, func(rt *rapid.T) {
+		defer recoverWedged(rec)
 		w := newC12World(t, rt)
 		defer func() { w.tc.shutdown() }()
 		tc := w.tc
